@@ -18,6 +18,7 @@ type VSimFetchPart struct {
 }
 
 type VSimFetchCtx struct {
+	ClientID  string
 	ReqSeq    int64
 	N         int // n-th fetch request cluster-wide
 	Broker    int32
@@ -58,6 +59,7 @@ type VSimFetchAction struct {
 
 // VSimFetched records what one partition block of a fetch answer contained.
 type VSimFetched struct {
+	ClientID    string
 	Seq         int64
 	N           int
 	Broker      int32
@@ -84,7 +86,7 @@ type VSimFetched struct {
 }
 
 func (s *VSim) handleFetch(b *VSimBroker, connID int64, ctx *VSimReqCtx, r *FetchRequest) (*vsResponse, int) {
-	fc := &VSimFetchCtx{ReqSeq: ctx.Seq, N: ctx.N, Broker: b.ID, Conn: connID, Version: r.Version, Isolation: int8(r.Isolation), MaxWaitMs: r.MaxWaitTime}
+	fc := &VSimFetchCtx{ClientID: ctx.ClientID, ReqSeq: ctx.Seq, N: ctx.N, Broker: b.ID, Conn: connID, Version: r.Version, Isolation: int8(r.Isolation), MaxWaitMs: r.MaxWaitTime}
 	for t, ps := range r.blocks {
 		for pid, blk := range ps {
 			fc.Parts = append(fc.Parts, VSimFetchPart{t, pid, blk.fetchOffset, blk.maxBytes})
@@ -107,7 +109,7 @@ func (s *VSim) handleFetch(b *VSimBroker, connID int64, ctx *VSimReqCtx, r *Fetc
 	case VFDrop, VFSilent:
 		s.mu.Lock()
 		for _, p := range fc.Parts {
-			s.logEvent("fetch", b.ID, connID, map[string]interface{}{"fetched": VSimFetched{N: fc.N, Broker: b.ID, Conn: connID, Version: r.Version, Topic: p.Topic, Partition: p.Partition, Offset: p.Offset, MaxBytes: p.MaxBytes, Action: act.Kind, FirstServed: -1, LastServed: -1}})
+			s.logEvent("fetch", b.ID, connID, map[string]interface{}{"fetched": VSimFetched{ClientID: ctx.ClientID, N: fc.N, Broker: b.ID, Conn: connID, Version: r.Version, Topic: p.Topic, Partition: p.Partition, Offset: p.Offset, MaxBytes: p.MaxBytes, Action: act.Kind, FirstServed: -1, LastServed: -1}})
 		}
 		s.mu.Unlock()
 		if act.Kind == VFDrop {
@@ -159,7 +161,7 @@ func (s *VSim) handleFetch(b *VSimBroker, connID int64, ctx *VSimReqCtx, r *Fetc
 	cutUsed := false
 	s.mu.Lock()
 	for i, p := range fc.Parts {
-		rec := VSimFetched{N: fc.N, Broker: b.ID, Conn: connID, Version: r.Version, Isolation: int8(r.Isolation), Topic: p.Topic, Partition: p.Partition,
+		rec := VSimFetched{ClientID: ctx.ClientID, N: fc.N, Broker: b.ID, Conn: connID, Version: r.Version, Isolation: int8(r.Isolation), Topic: p.Topic, Partition: p.Partition,
 			Offset: p.Offset, MaxBytes: p.MaxBytes, Action: act.Kind, Magic: act.Magic, Codec: act.Codec, FirstServed: -1, LastServed: -1}
 		if act.Kind == VFThrottledEmpty || (act.Kind == VFOmitBlock && (act.PartIdx < 0 || act.PartIdx == i)) {
 			s.logEvent("fetch", b.ID, connID, map[string]interface{}{"fetched": rec})
